@@ -10,6 +10,8 @@
      file      L[comments; L stmts]
      Parse / ParseLax / ParseWork   L[S data; I fixmode]   (fixmode 0: fix = nil, 1: [canon_fixer])
                 ok file | derrs [pos..] | errs [[pos; class]..] | panic | fuel
+     FormatParsed L[S data; I fixmode; I kind]  (kind 0 Parse, 1 ParseLax, 2 ParseWork)
+                ok (S bytes of Format(f.Syntax)) | the error values above
      ModulePath S data      S path
    File encoding: see [enc_filed] / [enc_work]; a *Line pointer is L[I stmt; I (line+1 or 0)]. *)
 From Verif.Base Require Import Bytes Wire.
@@ -111,6 +113,13 @@ Definition dispatch_directives (f : str) (a : val) : option val :=
     Some (match a with VL [VS data; VI m] => enc_dresult enc_filed (parse_to_file false (fixer_of m) data) | _ => VBadCase end)
   else if str_eqb f (B "ParseWork") then
     Some (match a with VL [VS data; VI m] => enc_dresult enc_work (parse_work (fixer_of m) data) | _ => VBadCase end)
+  else if str_eqb f (B "FormatParsed") then
+    Some (match a with
+          | VL [VS data; VI m; VI k] =>
+              if k =? 2 then enc_dresult (fun w => VS (format (wf_syntax w))) (parse_work (fixer_of m) data)
+              else enc_dresult (fun x => VS (format (fd_syntax x))) (parse_to_file (k =? 0) (fixer_of m) data)
+          | _ => VBadCase
+          end)
   else if str_eqb f (B "ModulePath") then
     Some (match a with VS data => VS (module_path data) | _ => VBadCase end)
   else None.
